@@ -683,9 +683,10 @@ impl<T> ValVec32<T> {
             )));
         }
 
-        // SAFETY: Index is bounds checked
+        // SAFETY: Index is bounds checked; the slot holds an initialised element, which
+        // the assignment drops before storing the new value
         unsafe {
-            ptr::write(self.ptr.as_ptr().add(index as usize), value);
+            *self.ptr.as_ptr().add(index as usize) = value;
         }
         Ok(())
     }
